@@ -251,7 +251,7 @@ impl Function {
                     }
                 }
             },
-            None => Ok(Val::String(string)),
+            None => Ok(Val::String("".into())),
         }
     }
 
